@@ -219,6 +219,13 @@ def run_prop(chk: Check, prop: str) -> int:
     for c in txhist.pattern_cases(None if chk.thorough else chk.rng, 3000):
         cases.append(("delete-match", c))
         npat += 1
+    nout = ncont = 0
+    for c in txhist.outside_write_cases():
+        cases.append(("outside-write", c))
+        nout += 1
+    for c in txhist.container_cases():
+        cases.append(("container-value", c))
+        ncont += 1
     nmulti = 0
     for c in txhist.multi_backend_cases():
         cases.append(("multi-backend", c))
@@ -291,6 +298,18 @@ def run_prop(chk: Check, prop: str) -> int:
         "transaction_buffer_rule": "D45: per mode one transaction writing 1001 distinct keys and one writing 1100 (re-reading an early key half-way), the "
                                    "oldest / a middle / the newest write read back from inside (C04) and every key read after commit (C03), against "
                                    "the same writes applied directly; real code only; a regression is reported under signature " + BUFFER_SIGNATURE,
+        "outside_write_cases": nout,
+        "outside_write_rule": "`out <command>`: a command of ANOTHER client (same Cache, a context without the transaction), applied to the direct copy as well, "
+                              "placed where the running segment has issued nothing yet - after the outermost enter, after an explicit tx.commit() / tx.rollback() "
+                              "(half of the generated ones are followed by one); enumerated: 6 first-segment writes of a key x {commitnow, rollback} x 4 outside "
+                              "commands (re-create / overwrite / delete that key, write another) x 4 second segments x {normal exit, exception} x 3 modes (both tiers). "
+                              "Judged by the ordinary oracles with the reference store moved to the one the other client left: the second segment's end must not "
+                              "re-apply (or re-undo) anything of the first; driver: `out` = Mem.step on the backend store (no theorem: oracle + correspondence)",
+        "container_value_cases": ncont,
+        "container_value_rule": "values of the alphabet include a set and a list (memhist.CONTAINERS, opaque tokens t:500.. for the model); enumerated: a stored key "
+                                "holding a set / empty set / list / empty list / dict, with and without ttl x 6 command scripts (expire, expire+reads, conditional set, "
+                                "delete, incr, mixed) x 3 modes x {commit, exception, cancellation}: the outside observer must not see the deadline move before commit, "
+                                "and not at all after a rollback",
         "multi_backend_cases": nmulti,
         "multi_backend_rule": "prefix-routed caches: configs facade2 (keys kb1, kb2 on a second backend) and facade3 (kb1 and kb2 each on a backend of its own) "
                               "are 20% / 10% of the generated cases, so one transaction holds a TransactionBackend per touched backend; plus the enumerated "
